@@ -102,14 +102,14 @@ _ALL = {
              'insert/delete of the head share one transaction block (L2), the pulled file is released after commit '
              '(F4), expired heads use the common liveness predicate (X1); Deque/Index delegate positionally right (S6).',
              'Delivery order/exactly-once over interleavings follows from the block discipline only under A2.'),
-    'C11': P(['E6', 'I3', 'I4', ('I2', r'^(Deque|no-store)'), ('I1', r'^Deque\.'), ('L3', r'Deque\.'), ('R2', r'^Deque\.'), 'R3', ('P1', r'Deque'), ('S6', r'persistent\.Deque\.')],
+    'C11': P(['E6', 'I3', 'I4', ('B7', r'persistent'), ('I2', r'^(Deque|no-store)'), ('I1', r'^Deque\.'), ('L3', r'Deque\.'), ('R2', r'^Deque\.'), 'R3', ('P1', r'Deque'), ('S6', r'persistent\.Deque\.')],
              'structural necessary conditions: policy none, append+trim in one retrying block, Timeout containment, state tuple',
              'Does NOT decide equivalence with collections.deque. Decides: a Deque never evicts or expires (E6); '
              'append/appendleft push, measure and trim the opposite side inside one retrying transaction, as does the '
              'maxlen setter (L3); no Deque method lets Timeout escape (R2, R3); the pickled state (directory, maxlen) '
              'matches the constructor (P1); delegation passes arguments in the right positions (S6).',
              'Equivalence with collections.deque over operation sequences needs execution and is not decided.'),
-    'C12': P(['E6', ('I2', r'^(Index|no-store)'), ('I1', r'^Index\.'), ('L3', r'Index\.'), ('R2', r'^Index\.'), 'R3', ('P1', r'Index'), 'V1b',
+    'C12': P(['E6', ('B7', r'persistent'), ('I2', r'^(Index|no-store)'), ('I1', r'^Index\.'), ('L3', r'Index\.'), ('R2', r'^Index\.'), 'R3', ('P1', r'Index'), 'V1b',
               ('S6', r'persistent\.Index\.')],
              'structural necessary conditions + call-path check of the lookup (vanished value file)',
              'Does NOT decide equivalence with OrderedDict. Decides: an Index never evicts or expires (E6); popitem '
